@@ -151,7 +151,7 @@ Lemma parse_next_frames : forall (fs : list wframe) (fuel : nat) (s : src) (cl :
 Proof.
   induction fs as [|f fs IH]; intros fuel s cl tail Hb Hw Hd Hf.
   - cbn. intros ->. cbn in Hd. destruct fuel; [cbn in Hf; lia|].
-    cbn [parse_next]. rewrite read_varint_nil by exact Hd. exists s. auto using same_end_refl.
+    cbn [parse_next]. rewrite read_varint_nil by exact Hd. rewrite Hd. cbn [truncated andb]. exists s. auto using same_end_refl.
   - destruct fuel as [|fuel]; [lia|]. cbn [length] in Hf.
     inversion Hw as [|? ? Hwf Hwr]; subst.
     destruct f as [th lh p|t th lh p]; cbn [next_data].
@@ -172,10 +172,27 @@ Proof.
         split; [exact H4|]. split; [exact H5|]. eapply same_end_trans; [exact H3|exact H6].
 Qed.
 
-(** * The invariant of Stream.Read on a well-formed stream that ends cleanly *)
+(** * The invariant of Stream.Read
+    [sinvT x cur fs tail]: [cur] is what remains of the open DATA frame, the complete frames [fs]
+    follow, then [tail] (empty, or the beginning of a frame that the end of the stream cut
+    short).  [sinv] is the case of a complete stream that ends cleanly. *)
+Definition sinvT (x : stream) (cur : list Z) (fs : list wframe) (tail : list Z) : Prop :=
+  x_rem x = zlen cur /\ s_data (x_src x) = cur ++ wire fs ++ tail /\ benign (x_src x) /\
+  x_trailer x = false /\ Forall wf_frame fs.
+
 Definition sinv (x : stream) (cur : list Z) (fs : list wframe) : Prop :=
   x_rem x = zlen cur /\ s_data (x_src x) = cur ++ wire fs /\ s_fin (x_src x) = EEOF /\
   x_trailer x = false /\ Forall wf_frame fs.
+
+Lemma sinv_sinvT x cur fs : sinv x cur fs -> sinvT x cur fs [] /\ s_fin (x_src x) = EEOF.
+Proof.
+  intros (H1 & H2 & H3 & H4 & H5). split; [|exact H3].
+  repeat split; auto. - rewrite app_nil_r. exact H2. - left. exact H3.
+Qed.
+Lemma sinvT_sinv x cur fs : sinvT x cur fs [] -> s_fin (x_src x) = EEOF -> sinv x cur fs.
+Proof.
+  intros (H1 & H2 & H3 & H4 & H5) Hf. rewrite app_nil_r in H2. repeat split; auto.
+Qed.
 
 (** What a Read may not change. *)
 Definition quiet (x x' : stream) : Prop :=
@@ -189,24 +206,32 @@ Proof. unfold quiet. intros (A1&A2&A3&A4&A5) (B1&B2&B3&B4&B5). repeat split; con
 
 Definition dlen (x : stream) : nat := length (s_data (x_src x)).
 
-Lemma read_payload_step (x : stream) (cur : list Z) (fs : list wframe) (blen : Z) :
-  sinv x cur fs ->
+Lemma app3_nil {A} (a b c : list A) : a ++ b ++ c = [] -> a = [] /\ b = [] /\ c = [].
+Proof. intros H. apply app_eq_nil in H as [H1 H]. apply app_eq_nil in H as [H2 H3]. auto. Qed.
+
+Lemma read_payload_stepT (x : stream) (cur : list Z) (fs : list wframe) (tail : list Z) (blen : Z) :
+  sinvT x cur fs tail ->
   exists out e x' cur',
     read_payload x blen = (out, e, x') /\
-    ((e = None /\ sinv x' cur' fs) \/ (e = Some EEOF /\ cur' = [] /\ fs = [] /\ sinv x' [] [])) /\
-    cur = out ++ cur' /\ zlen out <= Z.max 0 blen /\ quiet x x' /\
+    ((e = None /\ sinvT x' cur' fs tail) \/
+     (e = Some (s_fin (x_src x)) /\ cur' = [] /\ fs = [] /\ tail = [] /\ sinvT x' [] [] [])) /\
+    cur = out ++ cur' /\ zlen out <= Z.max 0 blen /\ quiet x x' /\ same_end (x_src x) (x_src x') /\
     (dlen x' <= dlen x)%nat /\ (0 < blen -> cur <> [] -> e = None -> (dlen x' < dlen x)%nat).
 Proof.
-  intros (Hrem & Hd & Hfin & Htr & Hw).
+  intros (Hrem & Hd & Hben & Htr & Hw).
   unfold read_payload. set (m := if x_rem x <? blen then x_rem x else blen).
   assert (Hm : m <= x_rem x /\ m <= blen /\ (m = x_rem x \/ m = blen)).
   { unfold m. destruct (Z.ltb_spec (x_rem x) blen); lia. }
   destruct (s_data (x_src x)) as [|b0 d0] eqn:Hdata.
-  - (* nothing left: the terminal EOF *)
-    symmetry in Hd. apply app_eq_nil in Hd as [E1 E2]. subst cur.
+  - (* nothing left: the terminal error *)
+    symmetry in Hd. apply app3_nil in Hd as (E1 & E2 & E3). subst cur tail.
     apply (wire_nil fs Hw) in E2. subst fs.
-    rewrite src_read_empty by exact Hdata. rewrite Hfin.
-    exists [], (Some EEOF), (set_rem (set_src x (x_src x)) (x_rem x - zlen (@nil Z))), [].
+    rewrite src_read_empty by exact Hdata. cbv zeta.
+    assert (Hc : oerr_is_eof (Some (s_fin (x_src x))) &&
+                 (0 <? x_rem (set_rem (set_src x (x_src x)) (x_rem x - zlen (@nil Z)))) = false).
+    { cbn [x_rem set_rem]. rewrite Hrem. change (zlen (@nil Z)) with 0. cbn. apply andb_false_r. }
+    rewrite Hc.
+    exists [], (Some (s_fin (x_src x))), (set_rem (set_src x (x_src x)) (x_rem x - zlen (@nil Z))), [].
     split; [reflexivity|]. split.
     { right. repeat split; auto; cbn; try rewrite Hrem; try rewrite Hdata; auto. }
     repeat split; auto; try (unfold zlen; simpl; lia); unfold dlen; cbn; try lia; congruence.
@@ -214,7 +239,7 @@ Proof.
     + (* zero-size read *)
       assert (Hr : src_read (x_src x) m = ([], None, x_src x)).
       { unfold src_read. rewrite Hdata. destruct (Z.leb_spec m 0); [reflexivity|lia]. }
-      rewrite Hr.
+      rewrite Hr. cbv zeta. cbn [oerr_is_eof andb].
       exists [], None, (set_rem (set_src x (x_src x)) (x_rem x - zlen (@nil Z))), cur.
       split; [reflexivity|]. split.
       { left. split; [reflexivity|]. repeat split; cbn; auto.
@@ -222,28 +247,97 @@ Proof.
         - rewrite Hdata. exact Hd. }
       repeat split; auto; try (unfold zlen; simpl; lia); unfold dlen; cbn; try lia.
       intros Hb Hc _. exfalso. destruct cur; [congruence|]. unfold zlen in Hrem. simpl in Hrem. lia.
-    + destruct (src_read_some (x_src x) m) as (n & e & s1 & Hr & Hn1 & Hn2 & Hn3 & Hd1 & [Hse1 Hse2] & He);
+    + destruct (src_read_some (x_src x) m) as (n & e & s1 & Hr & Hn1 & Hn2 & Hn3 & Hd1 & Hse & He);
         [rewrite Hdata; discriminate | lia |].
-      rewrite Hr. rewrite Hdata in *.
+      pose proof Hse as [Hse1 Hse2].
+      rewrite Hr. cbv zeta. rewrite Hdata in *.
       assert (Hnc : (n <= length cur)%nat) by (unfold zlen in Hrem; lia).
       rewrite Hd in *. rewrite firstn_app_le by exact Hnc. rewrite skipn_app_le in Hd1 by exact Hnc.
-      exists (firstn n cur), e, (set_rem (set_src x s1) (x_rem x - zlen (firstn n cur))), (skipn n cur).
-      split; [reflexivity|].
       assert (Hz : x_rem x - zlen (firstn n cur) = zlen (skipn n cur)).
       { rewrite zlen_firstn by exact Hnc. rewrite zlen_skipn, Nat.min_l by exact Hnc. lia. }
-      assert (Hsinv : sinv (set_rem (set_src x s1) (x_rem x - zlen (firstn n cur))) (skipn n cur) fs).
-      { repeat split; cbn; auto. congruence. }
+      assert (Hc : oerr_is_eof e &&
+                   (0 <? x_rem (set_rem (set_src x s1) (x_rem x - zlen (firstn n cur)))) = false).
+      { cbn [x_rem set_rem]. rewrite Hz. destruct He as [->|(He1 & _)]; [reflexivity|].
+        rewrite Hd1 in He1. apply app3_nil in He1 as (E1 & _). rewrite E1. apply andb_false_r. }
+      rewrite Hc.
+      exists (firstn n cur), e, (set_rem (set_src x s1) (x_rem x - zlen (firstn n cur))), (skipn n cur).
+      split; [reflexivity|].
+      assert (Hsinv : sinvT (set_rem (set_src x s1) (x_rem x - zlen (firstn n cur))) (skipn n cur) fs tail).
+      { repeat split; cbn; auto. eapply benign_same_end; eauto. }
       split.
       { destruct He as [He|(He1 & He2 & He3)]; [left; auto|right].
-        rewrite Hd1 in He1. apply app_eq_nil in He1 as [E1 E2].
-        apply (wire_nil fs Hw) in E2. subst fs. rewrite E1 in *. rewrite He3, Hfin. auto. }
+        rewrite Hd1 in He1. apply app3_nil in He1 as (E1 & E2 & E3).
+        apply (wire_nil fs Hw) in E2. subst fs tail. rewrite E1 in *. rewrite He3. auto. }
       split; [symmetry; apply firstn_skipn|].
       split; [rewrite zlen_firstn by exact Hnc; lia|].
-      split; [repeat split|].
+      split; [repeat split|]. split; [exact Hse|].
       unfold dlen. cbn. rewrite Hd1, Hdata. repeat rewrite app_length. rewrite skipn_length.
       split; intros; lia.
 Qed.
 
+Lemma stream_read_stepT (x : stream) (cur : list Z) (fs : list wframe) (tail : list Z) (blen : Z) :
+  sinvT x cur fs tail ->
+  (cur <> [] \/ next_data fs <> None \/ (tail = [] /\ s_fin (x_src x) = EEOF)) ->
+  exists out e x' cur' fs',
+    stream_read x blen = (out, e, x') /\
+    ((e = None /\ sinvT x' cur' fs' tail) \/
+     (e = Some (s_fin (x_src x)) /\ cur' = [] /\ fs' = [] /\ tail = [] /\ sinvT x' [] [] [])) /\
+    cur ++ payload fs = out ++ cur' ++ payload fs' /\ zlen out <= Z.max 0 blen /\ quiet x x' /\
+    (0 < blen \/ cur = [] -> e = None -> (dlen x' < dlen x)%nat) /\ (dlen x' <= dlen x)%nat /\
+    (cur <> [] -> fs' = fs /\ cur = out ++ cur') /\ same_end (x_src x) (x_src x').
+Proof.
+  intros Hinv Hpre. pose proof Hinv as (Hrem & Hd & Hb & Htr & Hw).
+  unfold stream_read. destruct (Z.eqb_spec (x_rem x) 0) as [H0|H0].
+  - (* a new frame is needed *)
+    assert (cur = []) by (apply zlen_nil_inv; lia). subst cur. cbn [app] in *.
+    pose proof (parse_next_frames fs (fuel_of (x_src x)) (x_src x) (x_closed x) tail Hb Hw Hd) as Hp.
+    assert (Hfuel : (length fs < fuel_of (x_src x))%nat).
+    { unfold fuel_of. rewrite Hd, app_length. pose proof (length_wire_ge fs Hw). lia. }
+    specialize (Hp Hfuel). destruct (next_data fs) as [[p r]|] eqn:Hnd.
+    + destruct Hp as (s' & Hp1 & Hp2 & Hp34). pose proof Hp34 as [Hp3 Hp4]. rewrite Hp1.
+      cbn [x_trailer set_closed set_src]. rewrite Htr.
+      set (x1 := set_rem (set_closed (set_src x s') (x_closed x)) (zlen p)).
+      assert (Hinv1 : sinvT x1 p r tail).
+      { repeat split; cbn; auto.
+        - eapply benign_same_end; eauto.
+        - eapply next_data_wf; eauto. }
+      destruct (read_payload_stepT x1 p r tail blen Hinv1)
+        as (out & e & x' & cur' & Hr & Hcase & Hcur & Hlen & Hq & Hse & Hdl & Hprog).
+      exists out, e, x', cur', r. split; [exact Hr|]. split.
+      { destruct Hcase as [[-> Hs]|(-> & -> & -> & -> & Hs)]; [left; auto|right].
+        cbn [x1 x_src set_rem set_closed set_src]. rewrite Hp3. auto. }
+      split.
+      { rewrite (next_data_payload_some fs p r Hnd), Hcur, <- app_assoc. reflexivity. }
+      split; [exact Hlen|]. split.
+      { eapply quiet_trans; [|exact Hq]. repeat split. }
+      assert (Hlt : (dlen x1 < dlen x)%nat).
+      { unfold dlen. cbn. rewrite Hp2, Hd. repeat rewrite app_length.
+        pose proof (next_data_wire_lt fs p r Hw Hnd) as Hl. rewrite app_length in Hl. lia. }
+      split; [intros; lia|]. split; [lia|]. split; [intros Hc; congruence|].
+      eapply same_end_trans; [exact Hp34|exact Hse].
+    + destruct Hpre as [Hc|[Hc|[Ht Hfin]]]; [congruence|congruence|]. subst tail.
+      destruct (Hp eq_refl) as (s' & Hp1 & Hp2 & Hp34). rewrite Hp1, Hfin.
+      exists [], (Some EEOF), (set_closed (set_src x s') (x_closed x)), [], [].
+      split; [reflexivity|].
+      assert (Hs : sinvT (set_closed (set_src x s') (x_closed x)) [] [] []).
+      { repeat split; cbn; auto. eapply benign_same_end; eauto. }
+      split; [right; auto|].
+      split; [rewrite (next_data_payload_none fs Hnd); reflexivity|].
+      split; [unfold zlen; simpl; lia|]. split; [repeat split|].
+      split; [intros _ E; discriminate|]. split; [unfold dlen; cbn; rewrite Hp2; simpl; lia|].
+      split; [intros Hc; congruence|exact Hp34].
+  - destruct (read_payload_stepT x cur fs tail blen Hinv)
+      as (out & e & x' & cur' & Hr & Hcase & Hcur & Hlen & Hq & Hse & Hdl & Hprog).
+    assert (Hne : cur <> []).
+    { intros E. apply H0. rewrite Hrem, E. reflexivity. }
+    exists out, e, x', cur', fs. split; [exact Hr|]. split.
+    { destruct Hcase as [[-> Hs]|(-> & -> & -> & -> & Hs)]; [left|right]; auto. }
+    split; [rewrite Hcur, <- app_assoc; reflexivity|].
+    split; [exact Hlen|]. split; [exact Hq|]. split; [intros [Hb'|Hb'] He; [auto|congruence]|].
+    split; [exact Hdl|]. auto.
+Qed.
+
+(** The complete, cleanly ending stream (the statement used by the exactness theorems). *)
 Lemma stream_read_step (x : stream) (cur : list Z) (fs : list wframe) (blen : Z) :
   sinv x cur fs ->
   exists out e x' cur' fs',
@@ -253,51 +347,16 @@ Lemma stream_read_step (x : stream) (cur : list Z) (fs : list wframe) (blen : Z)
     (0 < blen \/ cur = [] -> e = None -> (dlen x' < dlen x)%nat) /\ (dlen x' <= dlen x)%nat /\
     (cur <> [] -> fs' = fs /\ cur = out ++ cur').
 Proof.
-  intros Hinv. pose proof Hinv as (Hrem & Hd & Hfin & Htr & Hw).
-  unfold stream_read. destruct (Z.eqb_spec (x_rem x) 0) as [H0|H0].
-  - (* a new frame is needed *)
-    assert (cur = []) by (apply zlen_nil_inv; lia). subst cur. cbn [app] in *.
-    assert (Hb : benign (x_src x)) by (left; exact Hfin).
-    assert (Hd' : s_data (x_src x) = wire fs ++ []) by (rewrite app_nil_r; exact Hd).
-    pose proof (parse_next_frames fs (fuel_of (x_src x)) (x_src x) (x_closed x) [] Hb Hw Hd') as Hp.
-    assert (Hfuel : (length fs < fuel_of (x_src x))%nat).
-    { unfold fuel_of. rewrite Hd. pose proof (length_wire_ge fs Hw). lia. }
-    specialize (Hp Hfuel). destruct (next_data fs) as [[p r]|] eqn:Hnd.
-    + destruct Hp as (s' & Hp1 & Hp2 & [Hp3 Hp4]). rewrite Hp1.
-      cbn [x_trailer set_closed set_src]. rewrite Htr.
-      set (x1 := set_rem (set_closed (set_src x s') (x_closed x)) (zlen p)).
-      assert (Hinv1 : sinv x1 p r).
-      { repeat split; cbn; auto.
-        - rewrite Hp2, app_nil_r. reflexivity.
-        - congruence.
-        - eapply next_data_wf; eauto. }
-      destruct (read_payload_step x1 p r blen Hinv1) as (out & e & x' & cur' & Hr & Hcase & Hcur & Hlen & Hq & Hdl & Hprog).
-      exists out, e, x', cur', r. split; [exact Hr|]. split.
-      { destruct Hcase as [[-> Hs]|(-> & -> & -> & Hs)]; [left|right]; auto. }
-      split.
-      { rewrite (next_data_payload_some fs p r Hnd), Hcur, <- app_assoc. reflexivity. }
-      split; [exact Hlen|]. split.
-      { eapply quiet_trans; [|exact Hq]. repeat split. }
-      assert (Hlt : (dlen x1 < dlen x)%nat).
-      { unfold dlen. cbn. rewrite Hp2, Hd, app_nil_r. exact (next_data_wire_lt fs p r Hw Hnd). }
-      split; [intros; lia|]. split; [lia|]. intros Hc; congruence.
-    + destruct (Hp eq_refl) as (s' & Hp1 & Hp2 & [Hp3 Hp4]). rewrite Hp1, Hfin.
-      exists [], (Some EEOF), (set_closed (set_src x s') (x_closed x)), [], [].
-      split; [reflexivity|].
-      assert (Hs : sinv (set_closed (set_src x s') (x_closed x)) [] []).
-      { repeat split; cbn; auto. congruence. }
-      split; [right; auto|].
-      split; [rewrite (next_data_payload_none fs Hnd); reflexivity|].
-      split; [unfold zlen; simpl; lia|]. split; [repeat split|].
-      split; [intros _ E; discriminate|]. split; [unfold dlen; cbn; rewrite Hp2; simpl; lia|].
-      intros Hc; congruence.
-  - destruct (read_payload_step x cur fs blen Hinv) as (out & e & x' & cur' & Hr & Hcase & Hcur & Hlen & Hq & Hdl & Hprog).
-    assert (Hne : cur <> []).
-    { intros E. apply H0. rewrite Hrem, E. reflexivity. }
-    exists out, e, x', cur', fs. split; [exact Hr|]. split.
-    { destruct Hcase as [[-> Hs]|(-> & -> & -> & Hs)]; [left|right]; auto. }
-    split; [rewrite Hcur, <- app_assoc; reflexivity|].
-    split; [exact Hlen|]. split; [exact Hq|]. split; [intros [Hb|Hb] He; [auto|congruence]|]. split; [exact Hdl|]. auto.
+  intros Hinv. destruct (sinv_sinvT x cur fs Hinv) as [HT Hfin].
+  destruct (stream_read_stepT x cur fs [] blen HT ltac:(auto))
+    as (out & e & x' & cur' & fs' & Hr & Hcase & Hpay & Hlen & Hq & Hprog & Hdl & Hcur & [Hse _]).
+  exists out, e, x', cur', fs'. split; [exact Hr|]. split.
+  { destruct Hcase as [[-> Hs]|(-> & -> & -> & _ & Hs)].
+    - left. split; [reflexivity|]. apply sinvT_sinv; [exact Hs|congruence].
+    - right. rewrite Hfin. split; [reflexivity|]. split; [reflexivity|]. split; [reflexivity|].
+      apply sinvT_sinv; [exact Hs|congruence]. }
+  split; [exact Hpay|]. split; [exact Hlen|]. split; [exact Hq|]. split; [exact Hprog|].
+  split; [exact Hdl|exact Hcur].
 Qed.
 
 (** Stream.Read on a reserved frame type: the error surfaces, no bytes are delivered and the
